@@ -8,7 +8,7 @@ package main
 // case formats (tag first), see Run/C14_run.v:
 //  (0 ns sub name impl)                                   BuildFQName
 //  (1 dspec vt value impl)                                NewDesc + NewConstMetric + Write
-//  (2 kind ns sub name help vars consts lvs impl)         live constructors
+//  (2 kind cfg ns sub name help vars consts lvs impl)     live constructors (cfg: bucket/objective configuration, V2)
 //  (3 dspec count sum buckets impl)                       NewConstHistogram
 //  (4 dspec count sum quantiles impl)                     NewConstSummary
 //  (5 dspec count sum pos neg zero schema zt impl)        NewConstNativeHistogram
@@ -20,6 +20,8 @@ package main
 import (
 	"fmt"
 	"math"
+	"math/big"
+	"math/bits"
 	"os"
 	"sort"
 	"strings"
@@ -426,10 +428,13 @@ func liveCase(r *emit.Rng, bad int) []oneCase {
 	case 2:
 		sub = genName(r, 0)
 	}
-	if r.Chance(1, 3) { // steer towards the reserved names
+	if r.Chance(1, 3) || (kind >= 7 && r.Chance(1, 3)) { // steer towards the reserved names
 		res := "le"
-		if kind >= 9 || r.Chance(1, 4) {
+		if kind >= 9 || (kind < 7 && r.Chance(1, 4)) {
 			res = "quantile"
+		}
+		if kind >= 7 && r.Chance(1, 8) { // the other kind's reserved name is an ordinary label here
+			res = map[bool]string{true: "le", false: "quantile"}[kind >= 9]
 		}
 		if isVec && len(d.vars) > 0 && r.Bool() {
 			d.vars[r.Intn(len(d.vars))] = res
@@ -440,93 +445,186 @@ func liveCase(r *emit.Rng, bad int) []oneCase {
 	}
 	cl := prometheus.Labels(d.consts)
 	f := func() float64 { return 1 }
-	var coll prometheus.Collector
-	var met prometheus.Metric
-	panicked := ""
-	func() {
-		defer func() {
-			if e := recover(); e != nil {
-				s := fmt.Sprint(e)
-				if strings.Contains(s, "is not allowed as label name in") {
-					panicked = "label"
-				} else {
-					panicked = "other"
+	// cfg: every bucket / objective configuration and (vectors) the V2 constructor with constrained labels,
+	// all on the same names, labels and values.  cfg%10: histograms 0 default buckets, 1 explicit, 2 [+Inf] only,
+	// 3 native only, 4 native + classic; summaries 0 no objectives, 1 objectives.  cfg >= 10: V2 + ConstrainedLabels.
+	var cfgs []int
+	nb := 1
+	if kind == 7 || kind == 8 {
+		nb = 5
+	} else if kind == 9 || kind == 10 {
+		nb = 2
+	}
+	for b := 0; b < nb; b++ {
+		cfgs = append(cfgs, b)
+		if isVec {
+			cfgs = append(cfgs, 10+b)
+		}
+	}
+	cfgNames := []string{"default-buckets", "explicit-buckets", "inf-only", "native-only", "native+classic"}
+	if kind >= 9 {
+		cfgNames = []string{"no-objectives", "objectives"}
+	}
+	baseTags := d.tags
+	var out []oneCase
+	for _, cfg := range cfgs {
+		hopts := prometheus.HistogramOpts{Namespace: ns, Subsystem: sub, Name: name, Help: d.help, ConstLabels: cl}
+		switch cfg % 10 {
+		case 1:
+			hopts.Buckets = []float64{0.5, 1, 2.5}
+		case 2:
+			hopts.Buckets = []float64{math.Inf(1)}
+		case 3:
+			hopts.NativeHistogramBucketFactor = 1.1
+		case 4:
+			hopts.NativeHistogramBucketFactor = 1.1
+			hopts.Buckets = []float64{1, 2}
+		}
+		sopts := prometheus.SummaryOpts{Namespace: ns, Subsystem: sub, Name: name, Help: d.help, ConstLabels: cl}
+		if cfg%10 == 1 {
+			sopts.Objectives = map[float64]float64{0.5: 0.05, 0.99: 0.001}
+		}
+		constrained := func() prometheus.ConstrainedLabels {
+			cls := make(prometheus.ConstrainedLabels, len(d.vars))
+			for i, n := range d.vars {
+				cls[i] = prometheus.ConstrainedLabel{Name: n}
+				if i%2 == 0 {
+					cls[i].Constraint = func(v string) string { return v } // constrained, value-preserving
 				}
 			}
-		}()
-		vars := append([]string{}, d.vars...)
-		switch kind {
-		case 0:
-			x := prometheus.NewCounter(prometheus.CounterOpts{Namespace: ns, Subsystem: sub, Name: name, Help: d.help, ConstLabels: cl})
-			coll, met = x, x
-		case 1:
-			x := prometheus.NewGauge(prometheus.GaugeOpts{Namespace: ns, Subsystem: sub, Name: name, Help: d.help, ConstLabels: cl})
-			coll, met = x, x
-		case 2:
-			x := prometheus.NewCounterFunc(prometheus.CounterOpts{Namespace: ns, Subsystem: sub, Name: name, Help: d.help, ConstLabels: cl}, f)
-			coll, met = x, x
-		case 3:
-			x := prometheus.NewGaugeFunc(prometheus.GaugeOpts{Namespace: ns, Subsystem: sub, Name: name, Help: d.help, ConstLabels: cl}, f)
-			coll, met = x, x
-		case 4:
-			x := prometheus.NewUntypedFunc(prometheus.UntypedOpts{Namespace: ns, Subsystem: sub, Name: name, Help: d.help, ConstLabels: cl}, f)
-			coll, met = x, x
-		case 5:
-			x := prometheus.NewCounterVec(prometheus.CounterOpts{Namespace: ns, Subsystem: sub, Name: name, Help: d.help, ConstLabels: cl}, vars)
-			coll, met = x, x.WithLabelValues(d.lvs...)
-		case 6:
-			x := prometheus.NewGaugeVec(prometheus.GaugeOpts{Namespace: ns, Subsystem: sub, Name: name, Help: d.help, ConstLabels: cl}, vars)
-			coll, met = x, x.WithLabelValues(d.lvs...)
-		case 7:
-			x := prometheus.NewHistogram(prometheus.HistogramOpts{Namespace: ns, Subsystem: sub, Name: name, Help: d.help, ConstLabels: cl})
-			coll, met = x, x
-		case 8:
-			x := prometheus.NewHistogramVec(prometheus.HistogramOpts{Namespace: ns, Subsystem: sub, Name: name, Help: d.help, ConstLabels: cl}, vars)
-			coll, met = x, x.WithLabelValues(d.lvs...).(prometheus.Metric)
-		case 9:
-			x := prometheus.NewSummary(prometheus.SummaryOpts{Namespace: ns, Subsystem: sub, Name: name, Help: d.help, ConstLabels: cl})
-			coll, met = x, x
-		case 10:
-			x := prometheus.NewSummaryVec(prometheus.SummaryOpts{Namespace: ns, Subsystem: sub, Name: name, Help: d.help, ConstLabels: cl}, vars)
-			coll, met = x, x.WithLabelValues(d.lvs...).(prometheus.Metric)
+			return cls
 		}
-	}()
-	tags := append(d.tags, "kind:"+kindNames[kind])
-	var impl string
-	nontriv := false
-	switch panicked {
-	case "label":
-		impl = emit.C(0)
-		tags = append(tags, "result:panic-reserved-label")
-		nontriv = true
-	case "other":
-		impl = emit.C(1)
-		tags = append(tags, "result:panic-other")
-	default:
-		// registration result of the descriptor: the error recorded in the Desc
-		ch := make(chan *prometheus.Desc, 4)
-		coll.Describe(ch)
-		desc := <-ch
-		derr := 0
-		if e := prometheus.NewRegistry().Register(coll); e != nil {
-			derr = errCode(e)
-		}
-		_ = desc
-		labels := "()"
-		if derr == 0 {
-			var pb dto.Metric
-			if e := met.Write(&pb); e != nil {
-				panic(e)
+		var coll prometheus.Collector
+		var met prometheus.Metric
+		panicked := ""
+		func() {
+			defer func() {
+				if e := recover(); e != nil {
+					s := fmt.Sprint(e)
+					if strings.Contains(s, "is not allowed as label name in") {
+						panicked = "label"
+					} else {
+						panicked = "other"
+					}
+				}
+			}()
+			vars := append([]string{}, d.vars...)
+			switch kind {
+			case 0:
+				x := prometheus.NewCounter(prometheus.CounterOpts{Namespace: ns, Subsystem: sub, Name: name, Help: d.help, ConstLabels: cl})
+				coll, met = x, x
+			case 1:
+				x := prometheus.NewGauge(prometheus.GaugeOpts{Namespace: ns, Subsystem: sub, Name: name, Help: d.help, ConstLabels: cl})
+				coll, met = x, x
+			case 2:
+				x := prometheus.NewCounterFunc(prometheus.CounterOpts{Namespace: ns, Subsystem: sub, Name: name, Help: d.help, ConstLabels: cl}, f)
+				coll, met = x, x
+			case 3:
+				x := prometheus.NewGaugeFunc(prometheus.GaugeOpts{Namespace: ns, Subsystem: sub, Name: name, Help: d.help, ConstLabels: cl}, f)
+				coll, met = x, x
+			case 4:
+				x := prometheus.NewUntypedFunc(prometheus.UntypedOpts{Namespace: ns, Subsystem: sub, Name: name, Help: d.help, ConstLabels: cl}, f)
+				coll, met = x, x
+			case 5:
+				copts := prometheus.CounterOpts{Namespace: ns, Subsystem: sub, Name: name, Help: d.help, ConstLabels: cl}
+				var x *prometheus.CounterVec
+				if cfg >= 10 {
+					x = prometheus.V2.NewCounterVec(prometheus.CounterVecOpts{CounterOpts: copts, VariableLabels: constrained()})
+				} else {
+					x = prometheus.NewCounterVec(copts, vars)
+				}
+				coll, met = x, x.WithLabelValues(d.lvs...)
+			case 6:
+				gopts := prometheus.GaugeOpts{Namespace: ns, Subsystem: sub, Name: name, Help: d.help, ConstLabels: cl}
+				var x *prometheus.GaugeVec
+				if cfg >= 10 {
+					x = prometheus.V2.NewGaugeVec(prometheus.GaugeVecOpts{GaugeOpts: gopts, VariableLabels: constrained()})
+				} else {
+					x = prometheus.NewGaugeVec(gopts, vars)
+				}
+				coll, met = x, x.WithLabelValues(d.lvs...)
+			case 7:
+				x := prometheus.NewHistogram(hopts)
+				coll, met = x, x
+			case 8:
+				var x *prometheus.HistogramVec
+				if cfg >= 10 {
+					x = prometheus.V2.NewHistogramVec(prometheus.HistogramVecOpts{HistogramOpts: hopts, VariableLabels: constrained()})
+				} else {
+					x = prometheus.NewHistogramVec(hopts, vars)
+				}
+				coll, met = x, x.WithLabelValues(d.lvs...).(prometheus.Metric)
+			case 9:
+				x := prometheus.NewSummary(sopts)
+				coll, met = x, x
+			case 10:
+				var x *prometheus.SummaryVec
+				if cfg >= 10 {
+					x = prometheus.V2.NewSummaryVec(prometheus.SummaryVecOpts{SummaryOpts: sopts, VariableLabels: constrained()})
+				} else {
+					x = prometheus.NewSummaryVec(sopts, vars)
+				}
+				coll, met = x, x.WithLabelValues(d.lvs...).(prometheus.Metric)
 			}
-			labels = lpS(pb.Label)
-			nontriv = len(pb.Label) >= 1
-			tags = append(tags, "result:ok")
-		} else {
-			tags = append(tags, "result:desc-"+errTag(derr)[7:])
+		}()
+		tags := withTag(baseTags, "kind:"+kindNames[kind])
+		if kind >= 7 {
+			tags = append(tags, "cfg:"+kindNames[kind]+"/"+cfgNames[cfg%10])
 		}
-		impl = emit.C(2, emit.I(derr), labels)
+		if cfg >= 10 {
+			tags = append(tags, "ctor:V2-constrained")
+		}
+		if _, ok := d.consts["le"]; ok && (kind == 7 || kind == 8) {
+			tags = append(tags, "le:const/"+cfgNames[cfg%10])
+		}
+		if _, ok := d.consts["quantile"]; ok && kind >= 9 {
+			tags = append(tags, "quantile:const/"+cfgNames[cfg%10])
+		}
+		for _, vn := range d.vars {
+			if vn == "le" && kind == 8 {
+				tags = append(tags, "le:variable/"+cfgNames[cfg%10])
+			}
+			if vn == "quantile" && kind == 10 {
+				tags = append(tags, "quantile:variable/"+cfgNames[cfg%10])
+			}
+		}
+		var impl string
+		nontriv := false
+		switch panicked {
+		case "label":
+			impl = emit.C(0)
+			tags = append(tags, "result:panic-reserved-label")
+			nontriv = true
+		case "other":
+			impl = emit.C(1)
+			tags = append(tags, "result:panic-other")
+		default:
+			// registration result of the descriptor: the error recorded in the Desc
+			ch := make(chan *prometheus.Desc, 4)
+			coll.Describe(ch)
+			desc := <-ch
+			derr := 0
+			if e := prometheus.NewRegistry().Register(coll); e != nil {
+				derr = errCode(e)
+			}
+			_ = desc
+			labels := "()"
+			if derr == 0 {
+				var pb dto.Metric
+				if e := met.Write(&pb); e != nil {
+					panic(e)
+				}
+				labels = lpS(pb.Label)
+				nontriv = len(pb.Label) >= 1
+				tags = append(tags, "result:ok")
+			} else {
+				tags = append(tags, "result:desc-"+errTag(derr)[7:])
+			}
+			impl = emit.C(2, emit.I(derr), labels)
+		}
+		out = append(out, oneCase{emit.Tup("2", emit.I(kind), emit.I(cfg), emit.S(ns), emit.S(sub), emit.S(name), emit.S(d.help), emit.SL(d.vars), kvS(d.cOrder), emit.SL(d.lvs), impl), nontriv, tags})
 	}
-	return single(emit.Tup("2", emit.I(kind), emit.S(ns), emit.S(sub), emit.S(name), emit.S(d.help), emit.SL(d.vars), kvS(d.cOrder), emit.SL(d.lvs), impl), nontriv, tags)
+	return out
 }
 
 // distinct non-NaN float keys in generation order
@@ -821,33 +919,87 @@ func nativeCase(r *emit.Rng, bad int) []oneCase {
 	if r.Chance(1, 2) {
 		zero = 0
 	}
-	var total int64 = int64(zero)
+	tags := append(append(d.tags, t1...), t2...)
+	// populations and counts near and above 2^53, 2^60, 2^63: exact integer comparison matters there
+	bigMode := r.Chance(1, 4)
+	if bigMode {
+		bigs := []int64{1<<53 - 1, 1 << 53, 1<<53 + 1, 1<<53 + 2, 1 << 54, 1 << 60, 1<<60 + 100, 1 << 62, 1<<62 + 1, math.MaxInt64 - int64(r.Intn(2000))}
+		b := bigs[r.Intn(len(bigs))]
+		if len(pos) == 0 {
+			pos = []ikv{{r.Intn(5), b}}
+		} else {
+			pos[r.Intn(len(pos))].v = b
+		}
+		tags = append(tags, fmt.Sprintf("big-population:2^%d", bits.Len64(uint64(b))-1))
+		if r.Chance(1, 3) { // a second large one, possibly pushing the total to 2^63 and above
+			b2 := bigs[r.Intn(len(bigs))]
+			if len(neg) == 0 {
+				neg = []ikv{{r.Intn(5), b2}}
+			} else {
+				neg[r.Intn(len(neg))].v = b2
+			}
+		}
+		if r.Chance(1, 5) {
+			zero = uint64(bigs[r.Intn(5)])
+		}
+	}
+	totalB := new(big.Int).SetUint64(zero)
 	for _, p := range pos {
-		total += p.v
+		totalB.Add(totalB, big.NewInt(p.v))
 	}
 	for _, p := range neg {
-		total += p.v
+		totalB.Add(totalB, big.NewInt(p.v))
 	}
 	sum := r.AnyFloat()
 	if r.Chance(1, 6) {
 		sum = math.NaN()
 	}
-	tags := append(append(d.tags, t1...), t2...)
 	var count uint64
-	if total >= 0 {
-		count = uint64(total)
+	lim := new(big.Int).SetUint64(math.MaxUint64 - 4000)
+	if totalB.Sign() >= 0 && totalB.Cmp(lim) < 0 {
+		count = totalB.Uint64()
+		if count >= 1<<63-4000 {
+			// int64(count) is negative here: the NaN-sum comparison of the real code is the second half of the
+			// known finding count-wrap; only the exact-equality rule is exercised in this range
+			if sum != sum {
+				sum = 1.5
+			}
+			tags = append(tags, "total>=2^63")
+		}
 		if sum != sum && r.Bool() {
 			count += uint64(r.Intn(5))
 			tags = append(tags, "nan-sum-count-above")
 		}
-		if r.Intn(100) < 8+bad/2 {
-			if count > 0 && r.Bool() {
-				count--
-			} else {
-				count++
-			}
-			tags = append(tags, "count-off-by-one")
+		offPct := 8 + bad/2
+		if bigMode {
+			offPct = 50
 		}
+		if r.Intn(100) < offPct {
+			dd := uint64(1)
+			if bigMode || r.Chance(1, 4) {
+				dd = []uint64{1, 1, 2, 3, 7, 100, 1000}[r.Intn(7)]
+			}
+			if count >= dd && r.Bool() {
+				count -= dd
+			} else {
+				count += dd
+			}
+			tags = append(tags, "count-off-by-1..1000")
+			if bigMode {
+				tags = append(tags, "count-off-near-big")
+			}
+		}
+	} else if totalB.Sign() >= 0 {
+		// no uint64 count is consistent; stay clear of count == total mod 2^64 and of the signed NaN-sum
+		// comparison (both are the known finding count-wrap)
+		count = uint64(r.Intn(10))
+		if new(big.Int).And(totalB, new(big.Int).SetUint64(math.MaxUint64)).Uint64() == count {
+			count++
+		}
+		if sum != sum {
+			sum = 1.5
+		}
+		tags = append(tags, "total>=2^64")
 	} else {
 		// a negative total can match no count (count = 2^64+total is the wrap-around finding, kept out of this stream)
 		count = uint64(r.Intn(10))
